@@ -10,6 +10,7 @@ import (
 	"regexp"
 	"strings"
 
+	"github.com/go-openapi/spec"
 	"github.com/go-openapi/strfmt"
 	"github.com/go-openapi/validate"
 
@@ -189,6 +190,11 @@ func Gen(r *lib.Rand, n int, base int, o Options) []*Op {
 				op.Early, op.Carrier, op.OptSet = "", "float64", ""
 			}
 			op.Schema, op.Inst = gen.JSON(doc), gen.JSON(wrapped)
+			if r.P(0.012) {
+				// no schema at all: the one-shot entry point and the constructors take a nil *spec.Schema (nothing is validated)
+				op.Schema = nil
+				op.Early, op.OptSet = "nil-schema", ""
+			}
 		case 2, 3:
 			op.Kind = "param"
 			if k == 3 {
@@ -320,9 +326,12 @@ func (op *Op) Run(recycling bool) sut.Outcome {
 	switch op.Kind {
 	case "against", "schema-recycled":
 		return sut.Guard(func() sut.Outcome {
-			s, err := sut.Schema(op.Schema)
-			if err != nil {
-				return sut.Outcome{Panic: "harness: schema does not decode"}
+			var s *spec.Schema
+			var err error
+			if op.Schema != nil {
+				if s, err = sut.Schema(op.Schema); err != nil {
+					return sut.Outcome{Panic: "harness: schema does not decode"}
+				}
 			}
 			v, err := op.value()
 			if err != nil {
